@@ -22,8 +22,11 @@ func NewMemoryMetaStore() *MemoryMetaStore {
 
 // Update implements the MetaStore interface
 func (s *MemoryMetaStore) Update(ctx context.Context, writeOps []WriteOperation, deleteOps []DeleteOperation) error {
+	verifPause("mem.update.enter", 0)
 	s.mu.Lock()
 	defer s.mu.Unlock()
+	verifEvent("mem.update.begin", int64(len(writeOps)), int64(len(deleteOps)))
+	defer verifEvent("mem.update.end", 0, 0)
 
 	for _, op := range writeOps {
 		if op.FileMetadata != nil {
@@ -51,7 +54,10 @@ func (s *MemoryMetaStore) Update(ctx context.Context, writeOps []WriteOperation,
 // anyway.
 func (s *MemoryMetaStore) GetMaybeFilesForQuery(ctx context.Context, prefilter *QueryPrefilter) iter.Seq2[MaybeFile, error] {
 	return func(yield func(MaybeFile, error) bool) {
+		verifPause("mem.snap.enter", 0)
 		s.mu.RLock()
+		verifEvent("mem.snap.begin", int64(len(s.files)), 0)
+		verifPause("mem.snap.locked", 0)
 		snapshot := make([]MaybeFile, 0, len(s.files))
 		for pointer, metadata := range s.files {
 			// metadata is a copy of the map value, so reassigning its
@@ -66,9 +72,11 @@ func (s *MemoryMetaStore) GetMaybeFilesForQuery(ctx context.Context, prefilter *
 				Metadata:     metadata,
 			})
 		}
+		verifEvent("mem.snap.end", int64(len(snapshot)), 0)
 		s.mu.RUnlock()
 
 		for _, file := range snapshot {
+			verifPause("mem.snap.yield", 0)
 			if !yield(file, nil) {
 				return
 			}
